@@ -385,7 +385,13 @@ def run(ctx):
         for cr in (True, False):
             for src in ([], [0], [2], [1]) if thorough else ([], [2] if k >= 0 else [0]):
                 jobs.append((k, cr, src))
-    from harness.c20 import parallel
+    from harness.c20 import parallel as _parallel
+
+    def parallel(jobs, width=8):
+        out = []
+        for i in range(0, len(jobs), width):          # at most `width` JVMs at a time
+            out += _parallel(jobs[i:i + width])
+        return out
 
     def mc(k, cr, src):
         d = ctx.sub('mc-k%d-%s-%s' % (k, cr, ''.join(map(str, src))))
